@@ -120,8 +120,14 @@ func (r *RNN) Apply(inputs []tensor.Tensor) ([]tensor.Tensor, error) {
 	// Loop over all timesteps of the input, applying the RNN calculation to every
 	// timesteps while updating the hidden tensor.
 	for t := 0; t < seqLength; t++ {
-		Xt, err := X.Slice(ops.NewSlicer(t, t+1), nil, nil)
+		XtView, err := X.Slice(ops.NewSlicer(t, t+1), nil, nil)
 		if err != nil {
+			return nil, err
+		}
+
+		// Slicing one sample with one feature yields a scalar: restore (batch, input).
+		Xt := XtView.Materialize()
+		if err = Xt.Reshape(batchSize, X.Shape()[2]); err != nil {
 			return nil, err
 		}
 
